@@ -48,8 +48,8 @@ Orig ==
   /\ Is("orig")
   /\ E.p.ok /\ Len(E.p.glyphs) = F.n
   /\ Failed(F, Identity(F.n), E.p) = {}
-  /\ \A t \in ToSet(E.p.subs) : <<t[2], t[3]>> \in ToSet(F.subs)
-  /\ Len(E.p.subs) = Len(F.subs)
+  /\ \A t \in ToSet(E.p.subs) : <<t[2], t[3]>> \in ToSet(EffSubs(F))
+  /\ Len(E.p.subs) = Len(EffSubs(F))
   /\ UNCHANGED <<F, list, P>>
   /\ Consume
 
